@@ -334,7 +334,7 @@ fn run_case(input: &str) -> String {
     }
 }
 
-fn run(input: &str) -> String {
+pub fn run(input: &str) -> String {
     if std::env::var_os("C04_TRACE").is_some() {
         // debugging aid: print panic messages (harness_main installs a silent hook)
         let _ = std::panic::take_hook();
@@ -811,7 +811,7 @@ fn cov_member_list(cov: &T) -> Vec<i64> {
     }
 }
 
-fn gen(rng: &mut Rng) -> String {
+pub fn gen(rng: &mut Rng) -> String {
     let gdef = gen_gdef(rng);
     let nlookups = rng.range(1, 5);
     let catch_all = rng.chance(2, 3);
